@@ -22,7 +22,9 @@ RULE = (
     "time) on one live instance. Oracle: rule invariants on the after-state AND on every setSwitchVector published during the op; "
     "a switch turned On by a single assignment is On afterwards and in the message published for it; AnyOfMany changes only named "
     "switches; the last published message equals the final state. 'hidden': histories that also hide and show switches (element-level "
-    "enabled flag): the rule is asserted over all switches of the property, hidden ones included. Non-trivial: the op turns Off the only On switch, or names >= 2 "
+    "enabled flag): the rule is asserted over all switches of the property, hidden ones included. 'handlers': histories on a driver "
+    "whose switches have plain Change handlers that re-publish the vector or turn a fallback switch On while they run: no state a "
+    "handler sees and no update published may break the rule. Non-trivial: the op turns Off the only On switch, or names >= 2 "
     "switches, or uses selected_value(s). Transitions are distinct by construction."
 )
 ASSUMPTIONS = ["for OneOfMany the guarantee 'exactly one On' is asserted from states that have one On (as the statement says); from zero On, at most one"]
@@ -278,6 +280,65 @@ def check_hidden(case):
     return Info(nontrivial=nt, labels=[case["rule"], f"n={n}", "hidden-switch-was-on" if nt else "hidden-switch-off"])
 
 
+def check_with_handlers(case):
+    """The same histories on a driver whose switches have plain Change handlers that act on the vector while they run:
+    'publish' re-publishes it (state_ assignment), 'fallback' turns a fixed switch On when their own switch went Off.
+    Whatever handlers do, they must never get to see - or publish - a state that breaks the rule.
+    case: {"rule", "n", "on", "ops", "mode": "publish"|"fallback"|"observe", "fallback": i}"""
+    from indi.device import events
+
+    n = case["n"]
+    on = sorted({i % n for i in case["on"]})
+    if case["rule"] != "AnyOfMany":
+        on = on[:1]
+    rig = Rig(case["rule"], n, on)
+    seen = []
+    fb = case.get("fallback", 0) % n
+
+    def make(i):
+        def cb(event):
+            seen.append(rig.state())
+            if case["mode"] == "publish":
+                rig.vec.state_ = "Busy"
+            elif case["mode"] == "fallback" and event.new_value == "Off" and i != fb:
+                getattr(rig.vec, f"e{fb}").value = "On"
+
+        return cb
+
+    for i in range(n):
+        getattr(rig.vec, f"e{i}")._definition.attach_event_handler(events.Change, make(i))
+    nt = False
+    for op in case["ops"]:
+        before = rig.state()
+        rig.published.clear()
+        seen.clear()
+        try:
+            rig.apply(op)
+        except Exception as e:  # noqa
+            raise Failure(f"raises:{op[0]}:{type(e).__name__}:handlers", f"{case['rule']} n={n} state={before} op={op} mode={case['mode']}: {type(e).__name__}: {e}")
+        after = rig.state()
+        ctx = f"{case['rule']} n={n} mode={case['mode']} before={before} op={op} after={after}"
+        pubs = []
+        for m in rig.published:
+            if m.__class__.tag_name() == "setSwitchVector":
+                vals = {c.name: c.value for c in m.children}
+                pubs.append(tuple(vals.get(f"S{i}") == "On" for i in range(n)))
+        try:
+            check_rule_state(case["rule"], sum(before), after, "state-with-handlers")
+            k = sum(before)
+            for s_ in pubs:
+                check_rule_state(case["rule"], min(k, 1) if case["rule"] == "OneOfMany" else k, s_, "published-with-handlers")
+                k = sum(s_)
+            if case["rule"] != "AnyOfMany":
+                for s_ in seen:
+                    if sum(s_) > 1:
+                        raise Failure(f"{case['rule']}-more-than-one:seen-by-handler", f"a Change handler ran while {s_} was the state")
+        except Failure as f:
+            raise Failure(f.sig, f"{ctx} published={pubs}: {f.msg}")
+        nt = nt or bool(seen)
+    return Info(nontrivial=nt, labels=[case["rule"], case["mode"], f"n={n}"])
+
+
 idx = st.integers(0, 7)
 op_st = st.one_of(
     st.tuples(st.just("client"), st.lists(st.tuples(idx, st.booleans()).map(list), min_size=1, max_size=4), st.booleans()).map(list),
@@ -292,7 +353,10 @@ hide_op = st.tuples(st.just("hide"), idx, st.booleans()).map(list)
 hidden_history = st.fixed_dictionaries({"rule": st.sampled_from(gen.RULES), "n": st.integers(2, 5), "on": st.lists(idx, max_size=3),
                                         "ops": st.lists(op_st | hide_op, min_size=2, max_size=25)})
 
-SUBCHECKS = {"graph": check_graph_block, "history": check_history, "hidden": check_hidden}
+handler_history = st.fixed_dictionaries({"rule": st.sampled_from(gen.RULES), "n": st.integers(2, 5), "on": st.lists(idx, max_size=3), "ops": st.lists(op_st, min_size=1, max_size=20),
+                                         "mode": st.sampled_from(["publish", "fallback", "observe"]), "fallback": idx})
+
+SUBCHECKS = {"graph": check_graph_block, "history": check_history, "hidden": check_hidden, "handlers": check_with_handlers}
 
 
 def graph_blocks(tier):
@@ -308,3 +372,4 @@ def run(ctx):
     ctx.exhaustive["graph"] = {"complete": True, "n_states": cnt, "bound": "3 rules x n<=5, pairs (quick) / n<=6, triples (thorough); every (state, op) transition"}
     ctx.hyp("history", history, check_history, ctx.scale(300, 5000))
     ctx.hyp("hidden", hidden_history, check_hidden, ctx.scale(400, 5000))
+    ctx.hyp("handlers", handler_history, check_with_handlers, ctx.scale(500, 6000))
